@@ -32,9 +32,10 @@ def run(tier, seed, replay):
     run.add_tlc(v1)
     for (line, fl) in v1.fails:
         fl["source"] = "replay"
-        fl["case"] = case_list[(line - 1) // 2] if (line - 1) // 2 < len(case_list) else None
+        ci = fl.get("ev", {}).get("case")
+        fl["case"] = case_list[ci] if isinstance(ci, int) and ci < len(case_list) else None
         run.failure(fl)
-    run.traces += s1["cases"] - len({l for l, _ in v1.fails})
+    run.traces += s1["cases"] - len({fl.get("ev", {}).get("case") for _, fl in v1.fails})
     run.evaluations += s1["cases"]
     # 3. impl -> spec: long random histories, every step validated
     s2 = {"histories": 0, "events": 0, "steps_with_eviction": 0, "samples": []}
